@@ -35,6 +35,13 @@ def prepare_input(ctx, yastn, rng, cfg, sym, cplx):
         if cplx:
             d = d + 1j * np.array([rng.gauss(0, 1) for _ in range(a.size)])
         a._data = d
+    if rng.random() < 0.12 and len(a.slices) > 0:
+        # sectors that vanish exactly (a stored block of zeros: rank-deficient / zero merged matrices, 1x1 ones included)
+        d = np.array(a._data, copy=True)
+        for sl in rng.sample(list(a.slices), min(len(a.slices), rng.choice([1, 1, 2]))):
+            d[slice(*sl.slcs[0])] = 0
+        a._data = d
+        ctx.count("input:exactly-zero-block")
     state = rng.choice(["plain", "lazy", "fused-hard", "fused-meta", "lazy+fused"])
     if state in ("lazy", "lazy+fused") and a.ndim > 1:
         p = list(range(a.ndim)); rng.shuffle(p)
@@ -61,7 +68,7 @@ def run(ctx):
     budget = 55 if ctx.quick else 700
     ctx.rule = ("random tensors (7 symmetries, ranks 2-5, non-zero charge, rectangular sectors, real/complex, plain/lazy/hard-/meta-fused), random "
                 "bipartitions and orders, sU/sQ in {+1,-1}, nU, Uaxis/Vaxis/Qaxis/Raxis; svd, qr, eigh, eig; structure exact, numerics to 1e-10; "
-                "non-trivial = >=2 blocks; distinct by (sym, legs, axes, options); eig/eigh: arbitrary leg order (lazy or materialised, non-involutive permutations), rows/columns meta-fused alike or differently, charged eig with nU, axis positions over the whole negative range, mis-ordered column legs must be rejected, operand bit-identical after every factorisation, svd(compute_uv=False)")
+                "non-trivial = >=2 blocks; distinct by (sym, legs, axes, options); eig/eigh: arbitrary leg order (lazy or materialised, non-involutive permutations), rows/columns meta-fused alike or differently, charged eig with nU, axis positions over the whole negative range, mis-ordered column legs must be rejected, operand bit-identical after every factorisation, svd(compute_uv=False); 12% of the inputs hold exactly vanishing blocks; 5% of the svd cases use a block-wise partial solver (lowrank/block_arnoldi/block_propack, k=1,2) on a sector of width 22-40: isometry, order and the k largest values")
     for it in range(ncase):
         if ctx.elapsed() > budget:
             ctx.count("stopped-by-time-budget")
@@ -78,7 +85,9 @@ def run(ctx):
                 if a.ndim < 2:
                     continue
                 axes = bipartition(rng, a.ndim)
-                if which == "svd":
+                if which == "svd" and rng.random() < 0.05:
+                    do_svd_partial(ctx, yastn, rng, cfg, sym, cplx)
+                elif which == "svd":
                     do_svd(ctx, yastn, rng, cfg, sym, a, axes)
                 else:
                     do_qr(ctx, yastn, rng, cfg, sym, a, axes)
@@ -179,6 +188,60 @@ def do_svd(ctx, yastn, rng, cfg, sym, a, axes):
     mine = sv[sv > 1e-9 * max(1.0, scale)]
     if len(ref) != len(mine) or not np.allclose(ref, mine, atol=1e-8 * max(1.0, scale)):
         ctx.fail("oracle", "c04:svd:spectrum", "singular values differ from numpy.linalg.svd of the dense matrix", case=case, concrete=True)
+
+
+def do_svd_partial(ctx, yastn, rng, cfg, sym, cplx):
+    """svd with a block-wise partial solver (policy lowrank / block_arnoldi / block_propack, k triples per sector) on a matrix with a
+    sector wide enough for scipy's iterative solvers: what the property says about ANY svd result still holds - U isometric, V
+    co-isometric, singular values non-negative and descending within each sector - and the values are the k largest of the sector."""
+    wide = rng.randint(22, 40)
+    if sym == "dense":
+        l0 = yastn.Leg(cfg, s=1, D=(wide,)); l1 = yastn.Leg(cfg, s=-1, D=(wide + rng.randint(0, 6),))
+    else:
+        ts = sorted({tgen.rand_charge(rng, sym) for _ in range(3)})[: rng.randint(1, 2)]
+        Ds = [wide] + [rng.randint(1, 5) for _ in ts[1:]]
+        rng.shuffle(Ds)
+        l0 = yastn.Leg(cfg, s=1, t=ts, D=Ds); l1 = yastn.Leg(cfg, s=-1, t=ts, D=[D + rng.randint(0, 6) for D in Ds])
+    a = yastn.rand(config=cfg, legs=[l0, l1], n=cfg.sym.zero())
+    policy = rng.choice(["lowrank", "block_arnoldi", "block_propack", "block_propack"])
+    k = rng.choice([1, 2, 2])
+    kw = {"D_block": k} if rng.random() < 0.5 else {"k_block": k}
+    sU = rng.choice([1, -1])
+    case = describe(a, ((0,), (1,)), sU=sU, which="svd-partial", policy=policy, k=k, wide=wide, seed_note="yastn.rand seeded from VERIF_SEED")
+    ctx.case(case, nontrivial=True)
+    ctx.count(f"svd-partial:{policy}")
+    try:
+        U, S, V = yastn.linalg.svd(a, axes=(0, 1), sU=sU, policy=policy, **kw)
+    except yastn.YastnError as e:
+        ctx.count(f"svd-partial:rejected:{str(e)[:40]}")
+        return
+    except np.linalg.LinAlgError as e:
+        ctx.count(f"svd-partial:solver-gave-up:{policy}")   # scipy's iterative solver reports non-convergence: no result to judge
+        return
+    ptol = 1e-6    # scipy's iterative solvers start from a random vector and converge to ~1e-8
+    UU = yastn.tensordot(U, U, axes=(0, 0), conj=(1, 0))
+    if float((UU - yastn.eye(cfg, legs=UU.get_legs(), isdiag=False)).norm()) > ptol * max(1, UU.get_shape(0)):
+        ctx.fail("oracle", "c04:svd-partial:U-isometry", f"policy={policy}: U^+ U != 1", case=case, concrete=True)
+    VV = yastn.tensordot(V, V, axes=(1, 1), conj=(0, 1))
+    if float((VV - yastn.eye(cfg, legs=VV.get_legs(), isdiag=False)).norm()) > ptol * max(1, VV.get_shape(0)):
+        ctx.fail("oracle", "c04:svd-partial:V-coisometry", f"policy={policy}: V V^+ != 1", case=case, concrete=True)
+    nsym = cfg.sym.NSYM
+    row_of = {ut[nsym:]: ut[:nsym] for ut in U.struct.t}           # charge of the connecting leg -> charge of the row leg
+    blk_of = {at[:nsym]: at for at in a.struct.t}
+    for t in S.struct.t:
+        s = np.asarray(S[t])
+        blk = np.asarray(a[blk_of[row_of[t[nsym:]]]])
+        ref = np.linalg.svd(blk, compute_uv=False)
+        if np.any(np.real(s) < 0) or np.any(np.diff(np.real(s)) > ptol * max(1.0, float(ref[0]))):
+            ctx.fail("oracle", "c04:svd-partial:S-order", f"policy={policy}: singular values of sector {t} are not non-negative descending: {s[:6]}", case=case, concrete=True)
+            break
+        if len(s) > len(ref) or not np.allclose(np.sort(np.real(s))[::-1], ref[: len(s)], atol=1e-5 * max(1.0, float(ref[0]))):
+            ctx.fail("oracle", "c04:svd-partial:values", f"policy={policy}: sector {t}: {s[:6]} are not the {len(s)} largest singular values {ref[:6]}", case=case, concrete=True)
+            break
+    # the kept triples reproduce the projection of a on them:  U^+ a V^+ = S
+    core = yastn.tensordot(yastn.tensordot(U, a, axes=(0, 0), conj=(1, 0)), V, axes=(1, 1), conj=(0, 1))
+    if float((core - S.diag()).norm()) > 1e-5 * max(1.0, float(a.norm())):
+        ctx.fail("oracle", "c04:svd-partial:triples", f"policy={policy}: U^+ a V^+ differs from S", case=case, concrete=True)
 
 
 def do_qr(ctx, yastn, rng, cfg, sym, a, axes):
